@@ -168,6 +168,21 @@ def h_concrete(ctx, case):
         _wf_finite(ctx, case + '_svd', Zs, [4, 4, 4])
         Z0 = teneva.svd(np.zeros((3, 3, 3)), 1e-10)
         _wf_finite(ctx, case + '_svd_zero', Z0, [3, 3, 3])
+    elif case == 'cancelling_zero':
+        # exactly zero tensors carried by cancelling non-zero cores (rank >= 2): the squared norm is rounding noise
+        bad = 0
+        for seed in range(12):
+            for n, r in [([3, 4, 3], 2), ([4, 4], 3), ([2, 3, 2, 3], 2)]:
+                Y = teneva.rand(n, r, seed=seed)
+                Z = teneva.sub(Y, Y)
+                v, p = teneva.norm(Z, use_stab=True)
+                a1 = teneva.accuracy(Y, Y)
+                a2 = teneva.accuracy(Z, Y)
+                vals = [v, teneva.norm(Z), a1, a2, teneva.accuracy(Y, Z)]
+                bad += sum(1 for x in vals if not np.isfinite(float(x)))
+                T = teneva.truncate(Z, 1e-10)
+                bad += sum(1 for G in T if not np.all(np.isfinite(G)))
+        ctx.claim(case + '_finite', bad == 0)
     elif case == 'als_constant_repeated':
         I = np.array([[0, 0, 1], [1, 1, 0], [0, 0, 1], [1, 0, 0], [0, 1, 1], [0, 0, 1]])
         y = np.ones(len(I)) * 3.
@@ -216,7 +231,7 @@ def instances(tier):
         out.append({'func': 'h_qtt', 'params': {'q': q, 'r': r}, 'opts': S})
     for dup in (False, True):
         out.append({'func': 'h_als_small', 'params': {'dup': dup}})
-    for case in ['cross_zero', 'cross_const', 'cross_d2_mode1', 'truncate_overranked', 'truncate_zero_generic',
+    for case in ['cancelling_zero', 'cross_zero', 'cross_const', 'cross_d2_mode1', 'truncate_overranked', 'truncate_zero_generic',
                  'rank_deficient_generic', 'als_constant_repeated', 'anova_constant', 'cheb_constant']:
         out.append({'func': 'h_concrete', 'params': {'case': case}, 'opts': {'concrete_only': True}})
     return out
@@ -227,7 +242,7 @@ BOUNDS = {
              'd in {2,3}, n=2 whose weights range over [0, inf) (zero tensor, vanishing cores, rank-deficient unfoldings); scalar '
              'functionals and accuracy against the zero tensor; tt_to_qtt on sparse cores q<=2 with weights >= 0; ALS rank 1 with '
              'constant / repeated data (ridge system proved non-singular).  Every division, root and logarithm executed generates the '
-             'obligation "operand can be zero / negative?" which the solver must refute.  Plus 9 fixed degenerate inputs run on the '
+             'obligation "operand can be zero / negative?" which the solver must refute.  Plus 10 fixed degenerate inputs run on the '
              'real code only (cross, als, anova, generic over-ranked / zero tensors): code whose factorisations cannot be encoded',
     'thorough': 'adds n=3, d=4 and the stabilised variants everywhere',
 }
